@@ -608,6 +608,13 @@ N_CHARSET = ['@charset "ascii";', '@charset "latin-1";']
 N_FONTFACE = ['@font-face { font-family: N; src: url(n.ttf) }', '@font-face /*n*/ { font-family: N }']
 N_UNKNOWN = ['@wunk n;', '@wunk n { m [1] (2) }', '@nunk n;']
 N_COMMENT = ['/*n*/']
+# the same kinds with the at-keyword spelled with escapes / in upper case: accepted or refused, but never half applied
+N_MEDIA = N_MEDIA + ['@M\\45 DIA tv { nz { left: 2px } }', '@\\6d edia print { nz { top: 2px } }']
+N_PAGE = N_PAGE + ['@P\\41GE { margin: 4cm }']
+N_IMPORT = N_IMPORT + ['@\\69mport "n2.css";', '@IMPORT "n3.css" tv;']
+N_NAMESPACE = N_NAMESPACE + ['@N\\41MESPACE np "http://n/2";']
+N_CHARSET = N_CHARSET + ['@\\63harset "ascii";']
+N_FONTFACE = N_FONTFACE + ['@FONT-F\\41 CE { font-family: N2 }']
 N_MARGIN = ['@top-left { content: "n" }', '@bottom-right { left: 2px; color: green }']
 N_VARIABLES = ['@variables { nv: 2px }', '@variables { nv: 2px; nz: green }']
 N_SHEET = ['na { left: 2px }', '@charset "ascii"; @import "n.css"; @namespace np "http://n/p"; np|na { left: 2px } nb { top: 2px }',
